@@ -263,6 +263,9 @@ type sym struct {
 	dd  bool
 }
 
+// LongValue is longer than any plausible fixed-size buffer or key prefix
+var LongValue = "a-token-of-about-three-hundred-bytes-" + strings.Repeat("0123456789", 27)
+
 // Vals are the values given to valued options; Poss the positional tokens
 var Vals = []string{"v1", "v2", "x", "7", "a=b", "v-1", "a b", "é", "=", "x--", "=x", "0", "true", "+5", "50%", "a\tb", "日本語", "0x1F",
 	"a-value-that-is-longer-than-sixty-four-bytes-0123456789-0123456789-0123456789-0123456789", "08", "010", "9223372036854775808", "TRUE", "100%", "$HOME", "caf\xe9", "\"v\"", "\"a b\"", "—",
@@ -454,6 +457,20 @@ func Sentence(r *rand.Rand, p *Prog, cfg Cfg) []string {
 		budget = 8 + 2*cfg.MaxRep
 	}
 	derive(r, p, p.AST, &syms, &budget, cfg.MaxRep)
+	if r.Intn(10) == 0 {
+		// a very long value or positional early on the line (anything keyed on a prefix of the line must still tell
+		// the rest apart)
+		for k := range syms {
+			if syms[k].opt != nil && !syms[k].opt.Flag {
+				syms[k].val = LongValue
+				break
+			}
+			if syms[k].opt == nil && !syms[k].dd {
+				syms[k].pos = LongValue
+				break
+			}
+		}
+	}
 	i := 0
 	for i < len(syms) {
 		j := i
